@@ -1,5 +1,5 @@
 import Sympler.Cells
-import Sympler.GridLemmas
+import Sympler.GridChecks
 
 /-!
 Executable model of the pair generation of the linked-cell pair creator:
@@ -66,7 +66,7 @@ def addPair (cp : CpCfg) (frozenList : Bool) (dir : Int) (fc sc : CellGeom) (p1 
      addPairComponent dir cellDist.2.1 p1.r.2.1 fc.c1.2.1 p2.r.2.1 sc.c1.2.1,
      addPairComponent dir cellDist.2.2 p1.r.2.2 fc.c1.2.2 p2.r.2.2 sc.c1.2.2)
   let abs2 : Rat := 0 + d.1 * d.1 + d.2.1 * d.2.1 + d.2.2 * d.2.2
-  if abs2 < cp.cutoff * cp.cutoff then
+  if addPairKeeps abs2 (cp.cutoff * cp.cutoff) then
     [{ c1 := cp.c1, c2 := cp.c2, frozenList := frozenList, s1 := p1.slot, fz1 := p1.frozen,
        s2 := p2.slot, fz2 := p2.frozen, d := d, abs2 := abs2, aoF := aoF, aoS := aoS }]
   else []
